@@ -575,3 +575,556 @@ Proof.
   unfold cms_regions, norm_cms. cbn [o_sd]. destruct Hw as (_ & _ & _ & Hsd).
   destruct (o_sd o) as [sd|]; cbn [option_map]; [|reflexivity]. f_equal. apply regions_norm. apply Hsd.
 Qed.
+
+(* ------------------------------------------------------------------ sub-slices *)
+Definition subslice (r x : bytes) : Prop := exists pre post, x = pre ++ r ++ post.
+Lemma subslice_refl x : subslice x x.
+Proof. exists [], []. rewrite app_nil_r. reflexivity. Qed.
+Lemma subslice_trans a b c : subslice a b -> subslice b c -> subslice a c.
+Proof.
+  intros (p1 & q1 & ->) (p2 & q2 & ->). exists (p2 ++ p1), (q1 ++ q2). rewrite <- !app_assoc. reflexivity.
+Qed.
+Lemma subslice_app_l a x y : subslice a x -> subslice a (x ++ y).
+Proof. intros (p & q & ->). exists p, (q ++ y). rewrite <- !app_assoc. reflexivity. Qed.
+Lemma subslice_app_r a x y : subslice a y -> subslice a (x ++ y).
+Proof. intros (p & q & ->). exists (x ++ p), q. rewrite <- !app_assoc. reflexivity. Qed.
+Lemma subslice_concat a ls : In a ls -> subslice a (concat ls).
+Proof.
+  induction ls as [|l ls IH]; intros H; [contradiction|]. cbn [concat]. destruct H as [->|H].
+  - apply subslice_app_l. apply subslice_refl.
+  - apply subslice_app_r. apply IH. exact H.
+Qed.
+Lemma subslice_body t : valid t -> subslice (t_body t) (t_full t).
+Proof. intros (Hf & _). rewrite Hf. unfold enc_tlv. exists (t_tag t :: enc_len (zlen (t_body t))), []. rewrite app_nil_r. reflexivity. Qed.
+Lemma subslice_enc tag b : subslice b (enc_tlv tag b).
+Proof. unfold enc_tlv. exists (tag :: enc_len (zlen b)), []. rewrite app_nil_r. reflexivity. Qed.
+
+(* ------------------------------------------------------------------ unique decomposition of a content string into elements *)
+Lemma elements_unique t rest seq :
+  valid t -> Forall valid seq -> t_full t ++ rest = concat (map t_full seq) ->
+  exists seq', seq = t :: seq' /\ rest = concat (map t_full seq').
+Proof.
+  intros Hv Hvs H. destruct seq as [|u seq'].
+  - cbn in H. destruct (valid_nonempty t Hv) as (b & r & Hbr). rewrite Hbr in H. discriminate.
+  - inversion Hvs; subst. cbn [map concat] in H.
+    pose proof (read_tlv_valid t rest Hv) as R1. rewrite H in R1. rewrite read_tlv_valid in R1 by assumption.
+    inversion R1; subst. eauto.
+Qed.
+
+(* ------------------------------------------------------------------ the digest preimage of signed attributes *)
+Lemma unsorted_set_seq body : unsorted_set (enc_tlv 48 body) = Ok (49 :: enc_len (zlen body) ++ body).
+Proof.
+  unfold unsorted_set, enc_tlv. rewrite zlen_cons.
+  replace (mus_nonempty (1 + zlen (enc_len (zlen body) ++ body))) with true
+    by (unfold mus_nonempty; pose proof (zlen_nonneg (enc_len (zlen body) ++ body)); lia).
+  reflexivity.
+Qed.
+
+(* parsed SignerInfo: relic re-reads the fourth element of the raw encoding and changes its identifier octet to SET *)
+Theorem attr_digest_parsed t s l p :
+  valid t -> t_tag t = T_SEQ -> parse_si t = Ok s -> si_auth s = Some l -> aab s = Ok p ->
+  exists pre tl post, si_raw s = t_full t /\ emit_si s = t_full t /\
+    t_body t = pre ++ (160 :: tl) ++ post /\ p = 49 :: tl /\ spec_signed_attrs_preimage (si_raw s) = Some p.
+Proof.
+  intros Hv Ht Hp Hauth Haab.
+  pose proof (parse_si_raw t s Hp) as Hraw.
+  assert (Hwf : wf_si s) by (exists t; tauto).
+  pose proof (valid_body_bytes t Hv) as Hbb.
+  (* the four reads of parse_si *)
+  pose proof Hp as Hp'. unfold parse_si in Hp'.
+  apply bind_ok in Hp'. destruct Hp' as ([t1 rest1] & E1 & Hp').
+  apply read_expect_ok in E1 as (Hl1 & Hv1 & _ & Hr1); [|exact Hbb].
+  cbn [fst snd] in Hp'. destruct (int64_ok (t_body t1)); cbn [negb] in Hp'; [|discriminate].
+  apply bind_ok in Hp'. destruct Hp' as ([t2 rest2] & E2 & Hp').
+  apply read_expect_ok in E2 as (Hl2 & Hv2 & _ & Hr2); [|exact Hr1].
+  cbn [fst snd] in Hp'.
+  apply bind_ok in Hp'. destruct Hp' as (i1 & Ei1 & Hp').
+  apply bind_ok in Hp'. destruct Hp' as (i2 & Ei2 & Hp').
+  destruct (int_ok (t_body (fst i2))); cbn [negb] in Hp'; [|discriminate].
+  apply bind_ok in Hp'. destruct Hp' as ([t3 rest3] & E3 & Hp').
+  apply read_expect_ok in E3 as (Hl3 & Hv3 & _ & Hr3); [|exact Hr2].
+  cbn [fst snd] in Hp'.
+  apply bind_ok in Hp'. destruct Hp' as (dalg & Ed & Hp').
+  apply bind_ok in Hp'. destruct Hp' as ([o4 rest4] & E4 & Hp'). rewrite auth_opt_v in E4.
+  apply read_optional_ok in E4; [|exact Hr3]. cbn [fst snd] in Hp'.
+  apply bind_ok in Hp'. destruct Hp' as (auth & Eauth & Hp').
+  assert (Ho4 : exists t4, o4 = Some t4).
+  { destruct o4 as [t4|]; [eauto|]. cbn [opt_attrs] in Eauth. inversion Eauth; subst auth.
+    repeat (let y := fresh "y" in let F := fresh "F" in apply bind_ok in Hp'; destruct Hp' as (y & F & Hp')).
+    inversion Hp'; subst s. cbn in Hauth. discriminate. }
+  destruct Ho4 as (t4 & ->). destruct E4 as (Hl4 & Hv4 & Ht4 & Hr4). rewrite OCT_auth_v in Ht4.
+  clear Hp' Eauth.
+  (* AuthenticatedAttributesBytes *)
+  unfold aab in Haab. rewrite Hraw in Haab.
+  destruct (valid_nonempty t Hv) as (b & r & Hbr).
+  replace (aab_use_fields (negb (zlen (t_full t) =? 0))) with false in Haab
+    by (rewrite Hbr, zlen_cons; pose proof (zlen_nonneg r); replace (1 + zlen r =? 0) with false by lia; reflexivity).
+  rewrite <- (app_nil_r (t_full t)) in Haab. rewrite read_expect_valid in Haab by assumption. cbn [bind fst] in Haab.
+  apply bind_ok in Haab. destruct Haab as (seq & Eseq & Haab). apply read_all_ok in Eseq as (Hcat & Hvs); [|exact Hbb].
+  subst rest1 rest2 rest3. rewrite Hl1 in Hcat.
+  destruct (elements_unique _ _ _ Hv1 Hvs Hcat) as (s1 & -> & Hc1). inversion Hvs; subst.
+  destruct (elements_unique _ _ _ Hv2 H2 Hc1) as (s2 & -> & Hc2). inversion H2; subst.
+  destruct (elements_unique _ _ _ Hv3 H4 Hc2) as (s3 & -> & Hc3). inversion H4; subst.
+  destruct (elements_unique _ _ _ Hv4 H6 Hc3) as (s4 & -> & Hc4).
+  replace (aab_short (zlen (t1 :: t2 :: t3 :: t4 :: s4))) with false in Haab
+    by (unfold aab_short; rewrite !zlen_cons; pose proof (zlen_nonneg s4); lia).
+  change (nth (Z.to_nat aab_index) (t1 :: t2 :: t3 :: t4 :: s4) (mkTlv 0 [] [])) with t4 in Haab.
+  change (octet 0 aab_rv_IsCompound aab_rv_Tag) with 48 in Haab.
+  rewrite unsorted_set_seq in Haab. inversion Haab; subst p; clear Haab.
+  destruct Hv4 as (Hf4 & _). unfold enc_tlv in Hf4. rewrite Ht4 in Hf4.
+  exists (t_full t1 ++ t_full t2 ++ t_full t3), (enc_len (zlen (t_body t4)) ++ t_body t4), rest4.
+  split; [exact Hraw|]. split; [rewrite emit_si_wf by exact Hwf; exact Hraw|]. split; [|split; [reflexivity|]].
+  - rewrite Hl1, Hf4. rewrite <- !app_assoc. reflexivity.
+  - (* the RFC 5652 walker finds the same octets *)
+    unfold spec_signed_attrs_preimage, one, children. rewrite Hraw.
+    pose proof (read_all_concat [t] ltac:(constructor; [exact Hv|constructor])) as R. cbn [map concat] in R. rewrite app_nil_r in R.
+    rewrite R.
+    assert (Hall : read_all (t_body t) = Ok (t1 :: t2 :: t3 :: t4 :: s4)).
+    { rewrite Hl1, Hc4.
+      pose proof (read_all_concat (t1 :: t2 :: t3 :: t4 :: s4)) as R2. cbn [map concat] in R2. apply R2.
+      exact Hvs. }
+    rewrite Hall. rewrite Ht4. cbn [Z.eqb Pos.eqb]. rewrite Hf4. reflexivity.
+Qed.
+
+(* SignerInfo built by relic (no raw encoding): the bytes that are digested are the emitted [0] field with its first octet
+   replaced by 0x31 *)
+Definition auth_field (s : sinfo) : bytes :=
+  emit_opt_attrs OCT_auth (SI_AuthenticatedAttributes_set || attrs_set) (si_auth s).
+Theorem attr_digest_built s l :
+  si_raw s = [] -> si_auth s = Some l ->
+  exists tl, auth_field s = 160 :: tl /\ aab s = Ok (49 :: tl) /\ subslice (auth_field s) (emit_si s).
+Proof.
+  intros Hraw Hauth. unfold auth_field. rewrite Hauth, auth_set_v, OCT_auth_v. cbn [emit_opt_attrs].
+  exists (enc_len (zlen (emit_attrs false l)) ++ emit_attrs false l). split; [reflexivity|]. split.
+  - unfold aab. rewrite Hraw, Hauth. change (aab_use_fields (negb (zlen (@nil Z) =? 0))) with true. cbv iota.
+    unfold attrs_bytes. rewrite attrs_set_v. change (octet 0 true 16) with 48. apply unsorted_set_seq.
+  - unfold emit_si. rewrite Hraw. unfold emit_si_fields. rewrite Hauth, auth_set_v, OCT_auth_v. cbn [emit_opt_attrs].
+    eapply subslice_trans; [|apply subslice_enc].
+    apply subslice_app_r. apply subslice_app_r. apply subslice_app_r. apply subslice_app_l. apply subslice_refl.
+Qed.
+
+(* ------------------------------------------------------------------ the builder's mandatory attributes *)
+Definition has_oid (oid : bytes) (l : list attr) : bool := existsb (fun a => bytes_eqb (at_oid a) oid) l.
+Lemma append_attr_fresh l oid v : has_oid oid l = false ->
+  append_attr l oid v = l ++ [mkAttr oid (octet attr_rv_Class attr_rv_IsCompound attr_rv_Tag) v []].
+Proof.
+  induction l as [|a l IH]; intros H; [reflexivity|]. cbn [has_oid existsb] in H. apply orb_false_iff in H as [H1 H2].
+  cbn [append_attr]. rewrite H1. cbn [app]. f_equal. apply IH. exact H2.
+Qed.
+Lemma has_oid_app oid l1 l2 : has_oid oid (l1 ++ l2) = has_oid oid l1 || has_oid oid l2.
+Proof. unfold has_oid. apply existsb_app. Qed.
+
+Lemma sign_adds_v : sign_adds = [(1, 1); (2, 2)]. Proof. reflexivity. Qed.
+Lemma oids_differ : bytes_eqb OID_content_type OID_message_digest = false. Proof. vm_compute. reflexivity. Qed.
+
+Definition ct_attr (b : builder) : attr := mkAttr OID_content_type 49 (enc_tlv T_OID (b_ctype b)) [].
+Definition md_attr (b : builder) : attr := mkAttr OID_message_digest 49 (enc_tlv T_OCT (b_digest b)) [].
+
+(* with attributes present and none of them a content-type or message-digest attribute, Sign appends exactly one of each,
+   with exactly one value: the content type and the content digest *)
+Theorem builder_attrs_once b l0 :
+  b_attrs b = Some l0 -> has_oid OID_content_type l0 = false -> has_oid OID_message_digest l0 = false ->
+  snd (sign_attrs b) = Some (l0 ++ [ct_attr b; md_attr b]).
+Proof.
+  intros Ha H1 H2. unfold sign_attrs. rewrite Ha. change (sign_with_attrs true) with true. cbv iota.
+  change sign_si_auth_is_builder_attrs with true. cbv iota. cbn [snd]. rewrite sign_adds_v. cbn [fold_left fst snd].
+  unfold add_attr. change (sign_oid 1) with OID_content_type. change (sign_oid 2) with OID_message_digest.
+  rewrite (append_attr_fresh l0 OID_content_type _ H1).
+  rewrite append_attr_fresh.
+  - rewrite <- app_assoc. reflexivity.
+  - rewrite has_oid_app, H2. cbn [has_oid existsb at_oid]. rewrite oids_differ. reflexivity.
+Qed.
+Theorem builder_no_attrs b : b_attrs b = None -> snd (sign_attrs b) = None /\ sign_preimage b = Ok (0, b_digest b).
+Proof.
+  intros Ha.
+  assert (E : snd (sign_attrs b) = None).
+  { unfold sign_attrs. rewrite Ha. change (sign_with_attrs false) with false. cbv iota.
+    change sign_si_auth_is_builder_attrs with true. cbv iota. cbn [snd]. try rewrite Ha. reflexivity. }
+  split; [exact E|]. unfold sign_preimage. rewrite E. reflexivity.
+Qed.
+(* and they are what gets digested *)
+Theorem builder_preimage b l0 :
+  b_attrs b = Some l0 -> has_oid OID_content_type l0 = false -> has_oid OID_message_digest l0 = false ->
+  exists tl, sign_preimage b = Ok (1, 49 :: tl) /\
+             auth_field (built_si b [] [] (mkAlg [] []) (mkAlg [] []) []) = 160 :: tl.
+Proof.
+  intros Ha H1 H2. unfold sign_preimage. rewrite (builder_attrs_once b l0 Ha H1 H2).
+  change (sign_with_attrs true) with true. cbv iota.
+  unfold attrs_bytes. rewrite attrs_set_v. change (octet 0 true 16) with 48. rewrite unsorted_set_seq. cbn [bind].
+  eexists. split; [reflexivity|].
+  unfold auth_field, built_si. cbn [si_auth]. rewrite (builder_attrs_once b l0 Ha H1 H2), auth_set_v, OCT_auth_v. reflexivity.
+Qed.
+
+(* outside that domain the statement fails (API misuse; no caller inside relic does this) *)
+Theorem builder_attrs_once_refuted_presupplied :
+  exists b l, b_attrs b = Some l /\ has_oid OID_content_type l = true /\
+    exists a, snd (sign_attrs b) = Some (a :: [md_attr b]) /\ at_oid a = OID_content_type /\
+              at_body a = [6; 2; 42; 3] ++ enc_tlv T_OID (b_ctype b).
+Proof.
+  exists (mkB [42; 134; 72; 134; 247; 13; 1; 7; 1] [1; 2; 3] (Some [mkAttr OID_content_type 49 [6; 2; 42; 3] []])).
+  eexists. split; [reflexivity|]. split; [vm_compute; reflexivity|]. eexists. split; [vm_compute; reflexivity|]. split; vm_compute; reflexivity.
+Qed.
+Theorem builder_attrs_once_refuted_sign_twice :
+  exists b l0, b_attrs b = Some l0 /\ has_oid OID_content_type l0 = false /\ has_oid OID_message_digest l0 = false /\
+    exists a1 a2, snd (sign_attrs (fst (sign_attrs b))) = Some (l0 ++ [a1; a2]) /\
+      at_body a2 = enc_tlv T_OCT (b_digest b) ++ enc_tlv T_OCT (b_digest b).
+Proof.
+  exists (mkB [42; 134; 72; 134; 247; 13; 1; 7; 1] [1; 2; 3] (Some [mkAttr [42; 3; 4] 49 [5; 0] []])).
+  eexists. split; [reflexivity|]. split; [vm_compute; reflexivity|]. split; [vm_compute; reflexivity|].
+  eexists. eexists. split; vm_compute; reflexivity.
+Qed.
+
+(* ------------------------------------------------------------------ timestamp tokens *)
+(* a SignerInfo that was parsed is emitted from its raw encoding: anything added to its fields afterwards is NOT emitted.
+   (TimestampAndMarshal is only ever handed freshly built structures.) *)
+Theorem parsed_signer_is_immutable au s tok : si_raw s <> [] -> emit_si (add_stamp au s tok) = emit_si s.
+Proof.
+  intros H. unfold add_stamp. destruct (if au then stamp_spc_is_unauth_add else stamp_cms_is_unauth_add); [|reflexivity].
+  unfold emit_si. cbn [si_raw]. destruct (si_raw s); [congruence|]. rewrite si_keeps_raw_v. reflexivity.
+Qed.
+
+(* a built SignerInfo: the token is embedded as Marshal(Unmarshal(token)), whose regions are the token's; the signed
+   attributes and the signature value of the enclosing SignerInfo are untouched *)
+Theorem embed_token_verbatim au s x tok :
+  all_bytes x = true -> parse_cms x = Ok tok -> zlen (emit_cms tok) < 2 ^ 31 ->
+  si_raw s = [] -> si_unauth s = None ->
+  let s' := add_stamp au s tok in
+  subslice (emit_cms tok) (emit_si s') /\
+  (exists tok', parse_cms (emit_cms tok) = Ok tok' /\ cms_regions tok' = cms_regions tok) /\
+  si_auth s' = si_auth s /\ si_sig s' = si_sig s /\ aab s' = aab s.
+Proof.
+  intros Hb Hp Hs Hraw Hun. cbn zeta.
+  assert (Hadd : add_stamp au s tok = mkSi (si_raw s) (si_version s) (si_issuer s) (si_serial s) (si_dalg s) (si_auth s) (si_ealg s) (si_sig s)
+                   (Some [mkAttr (if au then enc_oid oid_spc_timestamp_token else enc_oid oid_attr_timestamp_token) 49 (emit_cms tok) []])).
+  { unfold add_stamp. destruct au; cbv iota; rewrite Hun; reflexivity. }
+  rewrite Hadd. split; [|split; [|split; [reflexivity|split; [reflexivity|]]]].
+  - unfold emit_si. cbn [si_raw]. rewrite Hraw. unfold emit_si_fields. cbn [si_unauth si_version si_issuer si_serial si_dalg si_auth si_ealg si_sig].
+    rewrite unauth_set_v. cbn [emit_opt_attrs emit_attrs maybe_sort map concat emit_attr at_oid at_tag at_body at_full emit_rawvalue].
+    eapply subslice_trans; [|apply subslice_enc].
+    do 6 apply subslice_app_r. eapply subslice_trans; [|apply subslice_enc]. rewrite app_nil_r.
+    eapply subslice_trans; [|apply subslice_enc]. apply subslice_app_r. apply subslice_enc.
+  - destruct (signed_regions_stable x tok Hb Hp Hs) as (tok' & H1 & H2 & _). eauto.
+  - unfold aab. cbn [si_raw si_auth]. reflexivity.
+Qed.
+
+(* Detach drops the content and nothing else *)
+Theorem detach_keeps_signers o sd :
+  o_sd o = Some sd ->
+  exists sd', o_sd (detach o) = Some sd' /\ sd_sis sd' = sd_sis sd /\ sd_certs sd' = sd_certs sd /\ sd_crls sd' = sd_crls sd /\
+              ci_ctype (sd_ci sd') = ci_ctype (sd_ci sd) /\ emit_ci (sd_ci sd') = enc_tlv T_SEQ (enc_tlv T_OID (ci_ctype (sd_ci sd))).
+Proof.
+  intros H. unfold detach. rewrite H. change detach_clears_content with true. cbv iota. eexists. split; [reflexivity|]. cbn. tauto.
+Qed.
+
+(* ------------------------------------------------------------------ nothing but NUL padding may follow the structure *)
+Lemma trim_right_rev_nil l : trim_right_rev l [0] = [] -> Forall (fun b => b = 0) l.
+Proof.
+  induction l as [|b r IH]; intros H; [constructor|]. cbn [trim_right_rev existsb] in H.
+  destruct (b =? 0) eqn:E; cbn [orb] in H; [|discriminate]. constructor; [lia|]. apply IH. exact H.
+Qed.
+Theorem accepted_input_is_one_element_plus_padding x o :
+  all_bytes x = true -> parse_cms x = Ok o ->
+  exists t pad, x = t_full t ++ pad /\ valid t /\ t_tag t = T_SEQ /\ Forall (fun b => b = 0) pad.
+Proof.
+  intros Hb H. unfold parse_cms in H. rewrite layout_ok_true in H. cbn [negb] in H.
+  inv_bind H. destruct x0 as [t rest]. apply read_expect_ok in E as (Hl & Hv & Ht & _); [|exact Hb].
+  inv_bind H. cbn [snd] in H.
+  destruct (unmarshal_trailing_garbage trim_right rest) eqn:Eg; [discriminate|].
+  exists t, rest. split; [exact Hl|]. split; [exact Hv|]. split; [exact Ht|].
+  unfold unmarshal_trailing_garbage in Eg. apply negb_false_iff in Eg. apply Z.eqb_eq in Eg.
+  unfold trim_right in Eg. unfold zlen in Eg. rewrite rev_length in Eg.
+  assert (E0 : trim_right_rev (rev rest) [0] = []) by (destruct (trim_right_rev (rev rest) [0]); [reflexivity|cbn in Eg; lia]).
+  apply trim_right_rev_nil in E0. apply Forall_rev in E0. rewrite rev_involutive in E0. exact E0.
+Qed.
+
+(* ------------------------------------------------------------------ every region is a sub-slice of the input *)
+Definition region_list (sd : sdata) : list bytes :=
+  ci_raw (sd_ci sd) :: opt_list (sd_certs sd) ++ map c_tbs (opt_list (sd_crls sd)) ++ map si_raw (sd_sis sd).
+
+Lemma Forall2_In_r {A B} (R : A -> B -> Prop) l vs v : Forall2 R l vs -> In v vs -> exists a, In a l /\ R a v.
+Proof.
+  induction 1 as [|a b l vs Hab _ IH]; intros Hin; [contradiction|]. destruct Hin as [->|Hin]; [exists a; cbn; auto|].
+  destruct (IH Hin) as (a' & Ha & Hr). exists a'. cbn. auto.
+Qed.
+Lemma in_elements t ts : In t ts -> subslice (t_full t) (concat (map t_full ts)).
+Proof. intros H. apply subslice_concat. apply in_map. exact H. Qed.
+Lemma parse_crl_tbs t c : valid t -> parse_crl t = Ok c -> subslice (c_tbs c) (t_full t).
+Proof.
+  intros Hv H. unfold parse_crl in H.
+  apply bind_ok in H. destruct H as ([t1 rest1] & E1 & H).
+  apply read_expect_ok in E1 as (Hl1 & _); [|apply valid_body_bytes; exact Hv].
+  repeat (let y := fresh "y" in let F := fresh "F" in apply bind_ok in H; destruct H as (y & F & H)).
+  match type of H with context [bits_ok ?e] => destruct (bits_ok e) end; cbn [negb] in H; [|discriminate]. inversion H; subst. cbn [c_tbs fst].
+  eapply subslice_trans; [|apply subslice_body; exact Hv]. rewrite Hl1. apply subslice_app_l. apply subslice_refl.
+Qed.
+
+Lemma parse_sd_body_regions body sd r :
+  all_bytes body = true -> parse_sd_body body = Ok sd -> In r (region_list sd) -> subslice r body.
+Proof.
+  intros Hb H Hin. unfold parse_sd_body in H.
+  apply bind_ok in H. destruct H as ([t1 rest1] & E1 & H). apply read_expect_ok in E1 as (Hl1 & Hv1 & _ & Hr1); [|exact Hb].
+  cbn [fst snd] in H. destruct (int64_ok (t_body t1)); cbn [negb] in H; [|discriminate].
+  apply bind_ok in H. destruct H as ([t2 rest2] & E2 & H). apply read_expect_ok in E2 as (Hl2 & Hv2 & _ & Hr2); [|exact Hr1].
+  apply bind_ok in H. destruct H as (dalgs & Ed & H).
+  apply bind_ok in H. destruct H as ([t3 rest3] & E3 & H). cbn [snd] in E3. apply read_expect_ok in E3 as (Hl3 & Hv3 & _ & Hr3); [|exact Hr2].
+  apply bind_ok in H. destruct H as (ci & Eci & H). cbn [fst] in Eci.
+  apply bind_ok in H. destruct H as ([o4 rest4] & E4 & H). cbn [snd] in E4. rewrite certs_opt_v in E4.
+  apply read_optional_ok in E4; [|exact Hr3].
+  apply bind_ok in H. destruct H as (certs & Ece & H). cbn [fst] in Ece.
+  apply bind_ok in H. destruct H as ([o5 rest5] & E5 & H). cbn [snd] in E5. rewrite crls_opt_v in E5.
+  assert (Hr4 : all_bytes rest4 = true) by (destruct o4; [tauto|subst; exact Hr3]).
+  apply read_optional_ok in E5; [|exact Hr4].
+  apply bind_ok in H. destruct H as (crls & Ecr & H). cbn [fst] in Ecr.
+  assert (Hr5 : all_bytes rest5 = true) by (destruct o5; [tauto|subst; exact Hr4]).
+  apply bind_ok in H. destruct H as ([t6 rest6] & E6 & H). cbn [snd] in E6. apply read_expect_ok in E6 as (Hl6 & Hv6 & _ & Hr6); [|exact Hr5].
+  apply bind_ok in H. destruct H as (sis & Esi & H). cbn [fst] in Esi.
+  inversion H; subst sd; clear H.
+  (* where the remaining input sits inside body *)
+  assert (S3 : subslice rest2 body) by (rewrite Hl1, Hl2; do 2 apply subslice_app_r; apply subslice_refl).
+  assert (S4 : subslice rest3 body) by (eapply subslice_trans; [|exact S3]; rewrite Hl3; apply subslice_app_r; apply subslice_refl).
+  assert (S5 : subslice rest4 body).
+  { destruct o4 as [t4|]; [|subst; exact S4]. destruct E4 as (Hl4 & _). eapply subslice_trans; [|exact S4]. rewrite Hl4. apply subslice_app_r. apply subslice_refl. }
+  assert (S6 : subslice rest5 body).
+  { destruct o5 as [t5|]; [|subst; exact S5]. destruct E5 as (Hl5 & _). eapply subslice_trans; [|exact S5]. rewrite Hl5. apply subslice_app_r. apply subslice_refl. }
+  unfold region_list in Hin. cbn [sd_ci sd_certs sd_crls sd_sis] in Hin.
+  destruct Hin as [<-|Hin].
+  - (* encapsulated content info *)
+    rewrite (parse_ci_raw _ _ Eci). eapply subslice_trans; [|exact S3]. rewrite Hl3. apply subslice_app_l. apply subslice_refl.
+  - apply in_app_or in Hin as [Hin|Hin]; [|apply in_app_or in Hin as [Hin|Hin]].
+    + (* a certificate *)
+      destruct o4 as [t4|]; cbn [opt_certs] in Ece; [|inversion Ece; subst; contradiction].
+      destruct E4 as (Hl4 & Hv4 & _). apply bind_ok in Ece. destruct Ece as (ts & Ets & Ece). inversion Ece; subst certs. cbn [opt_list] in Hin.
+      apply read_all_ok in Ets as (Hcat & _); [|apply valid_body_bytes; exact Hv4].
+      apply in_map_iff in Hin as (t & <- & Ht).
+      eapply subslice_trans; [|exact S4]. rewrite Hl4. apply subslice_app_l.
+      eapply subslice_trans; [|apply subslice_body; exact Hv4]. rewrite Hcat. apply in_elements. exact Ht.
+    + (* tbsCertList of a CRL *)
+      destruct o5 as [t5|]; cbn [opt_crls] in Ecr; [|inversion Ecr; subst; contradiction].
+      destruct E5 as (Hl5 & Hv5 & _). apply bind_ok in Ecr. destruct Ecr as (cl & Ecl & Ecr). inversion Ecr; subst crls. cbn [opt_list] in Hin.
+      apply parse_list_inv in Ecl as (ts & Hcat & Hvs & Hf); [|apply valid_body_bytes; exact Hv5].
+      apply in_map_iff in Hin as (c & <- & Hc).
+      destruct (Forall2_In_r _ _ _ _ Hf Hc) as (t & Ht & _ & Hp).
+      assert (Hvt : valid t) by (rewrite Forall_forall in Hvs; apply Hvs; exact Ht).
+      eapply subslice_trans; [apply (parse_crl_tbs t c Hvt Hp)|].
+      eapply subslice_trans; [|exact S5]. rewrite Hl5. apply subslice_app_l.
+      eapply subslice_trans; [|apply subslice_body; exact Hv5]. rewrite Hcat. apply in_elements. exact Ht.
+    + (* a SignerInfo *)
+      apply parse_list_inv in Esi as (ts & Hcat & Hvs & Hf); [|apply valid_body_bytes; exact Hv6].
+      apply in_map_iff in Hin as (s & <- & Hs).
+      destruct (Forall2_In_r _ _ _ _ Hf Hs) as (t & Ht & _ & Hp).
+      rewrite (parse_si_raw _ _ Hp).
+      eapply subslice_trans; [|exact S6]. rewrite Hl6. apply subslice_app_l.
+      eapply subslice_trans; [|apply subslice_body; exact Hv6]. rewrite Hcat. apply in_elements. exact Ht.
+Qed.
+
+Theorem regions_are_subslices x o sd r :
+  all_bytes x = true -> parse_cms x = Ok o -> o_sd o = Some sd -> In r (region_list sd) -> subslice r x.
+Proof.
+  intros Hb H Hsd Hin. unfold parse_cms in H. rewrite layout_ok_true in H. cbn [negb] in H.
+  apply bind_ok in H. destruct H as ([t rest] & E & H). apply read_expect_ok in E as (Hl & Hv & _ & _); [|exact Hb].
+  apply bind_ok in H. destruct H as (o' & Eb & H). cbn [fst] in Eb.
+  destruct (unmarshal_trailing_garbage trim_right (snd (t, rest))); [discriminate|]. inversion H; subst o'; clear H.
+  eapply subslice_trans; [|rewrite Hl; apply subslice_app_l; apply subslice_body; exact Hv].
+  pose proof (valid_body_bytes t Hv) as Hbb. unfold parse_cms_body in Eb.
+  apply bind_ok in Eb. destruct Eb as ([t1 rest1] & E1 & Eb). apply read_expect_ok in E1 as (Hl1 & Hv1 & _ & Hr1); [|exact Hbb].
+  cbn [fst snd] in Eb. destruct (oid_ok (t_body t1)); cbn [negb] in Eb; [|discriminate].
+  destruct rest1 as [|b0 r0]; [inversion Eb; subst; cbn in Hsd; discriminate|].
+  apply bind_ok in Eb. destruct Eb as ([[tag len] r1] & Eh & Eb).
+  apply read_hdr_canon in Eh as (Hlh & _); [|exact Hr1].
+  assert (Hr1' : all_bytes r1 = true).
+  { rewrite Hlh in Hr1. apply all_bytes_cons in Hr1 as [_ Hr1]. apply all_bytes_app_iff in Hr1. tauto. }
+  destruct r1 as [|b1 r2]; [discriminate|].
+  destruct ((tag =? OCT_explicit) || (tag =? OCT_explicit_prim) && (len =? 0)); [|inversion Eb; subst; cbn in Hsd; discriminate].
+  destruct (len >? 0); [|discriminate].
+  apply bind_ok in Eb. destruct Eb as ([[tag2 len2] r3] & Eh2 & Eb).
+  destruct (tag2 =? T_SEQ); [|inversion Eb; subst; cbn in Hsd; discriminate].
+  apply bind_ok in Eb. destruct Eb as ([ti resti] & Ei & Eb). apply read_tlv_ok in Ei as (Hli & Hvi & _); [|exact Hr1'].
+  apply bind_ok in Eb. destruct Eb as (sd' & Esd & Eb). cbn [fst] in Esd. inversion Eb; subst o; clear Eb.
+  cbn [o_sd] in Hsd. inversion Hsd; subst sd'.
+  eapply subslice_trans; [apply (parse_sd_body_regions _ _ _ (valid_body_bytes _ Hvi) Esd Hin)|].
+  eapply subslice_trans; [apply subslice_body; exact Hvi|].
+  rewrite Hl1, Hlh, Hli. apply subslice_app_r.
+  exists (tag :: enc_len len), resti. reflexivity.
+Qed.
+
+(* ------------------------------------------------------------------ agreement with the RFC 5652 walker *)
+Lemma read_all_cons l t ts : all_bytes l = true -> read_all l = Ok (t :: ts) ->
+  l = t_full t ++ concat (map t_full ts) /\ valid t /\ Forall valid ts /\
+  read_tlv l = Ok (t, concat (map t_full ts)) /\ read_all (concat (map t_full ts)) = Ok ts.
+Proof.
+  intros Hb H. apply read_all_ok in H as (Hl & Hvs); [|exact Hb]. inversion Hvs; subst. cbn [map concat] in *.
+  split; [reflexivity|]. split; [assumption|]. split; [assumption|]. split; [apply read_tlv_valid; assumption|apply read_all_concat; assumption].
+Qed.
+Lemma read_expect_det oct l t r t' r' : read_tlv l = Ok (t, r) -> read_expect oct l = Ok (t', r') -> t' = t /\ r' = r.
+Proof. intros H1 H2. apply read_expect_inv in H2 as [H2 _]. rewrite H1 in H2. inversion H2. auto. Qed.
+Lemma all_bytes_concat_valid ts : Forall valid ts -> all_bytes (concat (map t_full ts)) = true.
+Proof. intros H. apply all_bytes_concat. induction H; cbn; constructor; auto using valid_full_bytes. Qed.
+
+Lemma children_ok t l : valid t -> children t = Some l -> read_all (t_body t) = Ok l.
+Proof. unfold children. destruct (read_all (t_body t)); intros; congruence. Qed.
+
+(* the optional field as the model reads it and as the walker splits it *)
+Lemma optional_agree oct rest o rest' :
+  Forall valid rest -> read_optional true oct (concat (map t_full rest)) = Ok (o, rest') ->
+  match rest with
+  | t :: r => if t_tag t =? oct then o = Some t /\ rest' = concat (map t_full r) else o = None /\ rest' = concat (map t_full rest)
+  | [] => o = None /\ rest' = []
+  end.
+Proof.
+  intros Hv H. destruct rest as [|t r]; cbn [map concat] in *.
+  - inversion H; subst. auto.
+  - inversion Hv; subst. destruct (t_tag t =? oct) eqn:Et.
+    + rewrite read_optional_present in H by (try assumption; lia). inversion H; subst. auto.
+    + rewrite read_optional_absent in H by (try assumption; lia). inversion H; subst. auto.
+Qed.
+
+Lemma crl_tbs_agree ts : forall cs tbs,
+  Forall valid ts -> Forall2 (fun t c => t_tag t = T_SEQ /\ parse_crl t = Ok c) ts cs ->
+  all_some (map spec_tbs ts) = Some tbs -> map c_tbs cs = tbs.
+Proof.
+  induction ts as [|t ts IH]; intros cs tbs Hv H2 Hs; inversion H2; subst; cbn [map all_some] in *.
+  - inversion Hs. reflexivity.
+  - inversion Hv; subst. destruct H1 as [_ Hp].
+    destruct (spec_tbs t) as [b|] eqn:Eb; [|discriminate].
+    destruct (all_some (map spec_tbs ts)) as [bs|] eqn:Ebs; [|discriminate]. inversion Hs; subst. f_equal; [|apply IH; auto].
+    unfold spec_tbs in Eb. destruct (children t) as [[|tb [|a [|b' [|]]]]|] eqn:Ec; try discriminate. inversion Eb; subst.
+    apply children_ok in Ec; [|assumption]. apply read_all_cons in Ec as (_ & _ & _ & Hr & _); [|apply valid_body_bytes; assumption].
+    unfold parse_crl in Hp. apply bind_ok in Hp. destruct Hp as ([t1 r1] & E1 & Hp).
+    destruct (read_expect_det _ _ _ _ _ _ Hr E1) as [-> _].
+    repeat (let y := fresh "y" in let F := fresh "F" in apply bind_ok in Hp; destruct Hp as (y & F & Hp)).
+    match type of Hp with context [bits_ok ?e] => destruct (bits_ok e) end; cbn [negb] in Hp; [|discriminate]. inversion Hp. reflexivity.
+Qed.
+
+Lemma si_raw_agree ts : forall ss, Forall2 (fun t s => t_tag t = T_SEQ /\ parse_si t = Ok s) ts ss -> map si_raw ss = map t_full ts.
+Proof.
+  induction ts as [|t ts IH]; intros ss H; inversion H; subst; cbn [map]; [reflexivity|].
+  destruct H2 as [_ Hp]. rewrite (parse_si_raw _ _ Hp). f_equal. apply IH. assumption.
+Qed.
+
+Lemma sd_spec_agree body sd ver dal eci rest cl rl sis sl tbs :
+  all_bytes body = true -> parse_sd_body body = Ok sd -> read_all body = Ok (ver :: dal :: eci :: rest) ->
+  (let (certs, rest1) := spec_split_optional 160 rest in
+   let (crls, rest2) := spec_split_optional 161 rest1 in
+   certs = Some cl /\ crls = Some rl /\ rest2 = [sis]) ->
+  children sis = Some sl -> all_some (map spec_tbs rl) = Some tbs ->
+  regions_of sd = mkReg (t_full eci) (sort_b (map t_full cl)) tbs (sort_b (map t_full sl)).
+Proof.
+  intros Hb H Hall Hsplit Hsl Htbs.
+  apply read_all_cons in Hall as (_ & _ & Hvs1 & Hr1 & Hall); [|exact Hb].
+  apply read_all_cons in Hall as (_ & _ & Hvs2 & Hr2 & Hall); [|apply all_bytes_concat_valid; exact Hvs1].
+  apply read_all_cons in Hall as (_ & _ & Hvs3 & Hr3 & Hall); [|apply all_bytes_concat_valid; exact Hvs2].
+  unfold parse_sd_body in H.
+  apply bind_ok in H. destruct H as ([t1 rest1] & E1 & H). destruct (read_expect_det _ _ _ _ _ _ Hr1 E1) as [-> ->].
+  cbn [fst snd] in H. destruct (int64_ok (t_body ver)); cbn [negb] in H; [|discriminate].
+  apply bind_ok in H. destruct H as ([t2 rest2] & E2 & H). destruct (read_expect_det _ _ _ _ _ _ Hr2 E2) as [-> ->].
+  apply bind_ok in H. destruct H as (dalgs & Ed & H).
+  apply bind_ok in H. destruct H as ([t3 rest3] & E3 & H). cbn [snd] in E3. destruct (read_expect_det _ _ _ _ _ _ Hr3 E3) as [-> ->].
+  apply bind_ok in H. destruct H as (ci & Eci & H). cbn [fst] in Eci.
+  apply bind_ok in H. destruct H as ([o4 rest4] & E4 & H). cbn [snd] in E4. rewrite certs_opt_v, OCT_certs_v in E4.
+  apply optional_agree in E4; [|exact Hvs3].
+  apply bind_ok in H. destruct H as (certs & Ece & H). cbn [fst] in Ece.
+  apply bind_ok in H. destruct H as ([o5 rest5] & E5 & H). cbn [snd] in E5. rewrite crls_opt_v, OCT_crls_v in E5.
+  apply bind_ok in H. destruct H as (crls & Ecr & H). cbn [fst] in Ecr.
+  apply bind_ok in H. destruct H as ([t6 rest6] & E6 & H). cbn [snd] in E6.
+  apply bind_ok in H. destruct H as (ss & Esi & H). cbn [fst] in Esi.
+  inversion H; subst sd; clear H. unfold regions_of. cbn [sd_ci sd_certs sd_crls sd_sis].
+  rewrite (parse_ci_raw _ _ Eci).
+  (* certificates *)
+  assert (Hc : exists rest1', Forall valid rest1' /\
+                 rest4 = concat (map t_full rest1') /\ sort_b (opt_list certs) = sort_b (map t_full cl) /\
+                 (let (crls0, rest2) := spec_split_optional 161 rest1' in crls0 = Some rl /\ rest2 = [sis])).
+  { destruct rest as [|c r].
+    - cbn in Hsplit. destruct Hsplit as (_ & _ & Habs). discriminate.
+    - inversion Hvs3; subst. cbn [spec_split_optional] in Hsplit. destruct (t_tag c =? 160) eqn:Et.
+      + destruct E4 as [-> ->]. cbn [opt_certs] in Ece. apply bind_ok in Ece. destruct Ece as (ts & Ets & Ece). inversion Ece; subst.
+        exists r. destruct (spec_split_optional 161 r) as [crls0 rest2'] eqn:E161. destruct Hsplit as (Hcl & Hrest).
+        apply children_ok in Hcl; [|assumption]. rewrite Hcl in Ets. inversion Ets; subst.
+        split; [assumption|]. split; [reflexivity|]. split; [reflexivity|]. exact Hrest.
+      + destruct E4 as [-> ->]. cbn [opt_certs] in Ece. inversion Ece; subst. exists (c :: r).
+        destruct (spec_split_optional 161 (c :: r)) as [crls0 rest2'] eqn:E161. destruct Hsplit as (Hcl & Hrest). inversion Hcl; subst.
+        split; [assumption|]. split; [reflexivity|]. split; [reflexivity|]. exact Hrest. }
+  destruct Hc as (rest1' & Hv1' & -> & Hcerts & Hsplit2). rewrite Hcerts.
+  apply optional_agree in E5; [|exact Hv1'].
+  (* CRLs *)
+  assert (Hr : exists rest2', Forall valid rest2' /\ rest5 = concat (map t_full rest2') /\ rest2' = [sis] /\ map c_tbs (opt_list crls) = tbs).
+  { destruct rest1' as [|c r].
+    - cbn in Hsplit2. destruct Hsplit2 as (_ & Habs). discriminate.
+    - inversion Hv1'; subst. cbn [spec_split_optional] in Hsplit2. destruct (t_tag c =? 161) eqn:Et.
+      + destruct E5 as [-> ->]. cbn [opt_crls] in Ecr. apply bind_ok in Ecr. destruct Ecr as (cs & Ecs & Ecr). inversion Ecr; subst.
+        destruct Hsplit2 as (Hch & ->). apply children_ok in Hch; [|assumption].
+        apply parse_list_inv in Ecs as (ts & Hcat & Hvts & Hf); [|apply valid_body_bytes; assumption].
+        assert (ts = rl).
+        { pose proof (read_all_concat ts Hvts) as R. rewrite <- Hcat in R. rewrite Hch in R. inversion R. reflexivity. }
+        subst ts. exists [sis]. split; [assumption|]. split; [reflexivity|]. split; [reflexivity|]. cbn [opt_list].
+        apply (crl_tbs_agree rl cs tbs Hvts Hf Htbs).
+      + destruct E5 as [-> ->]. cbn [opt_crls] in Ecr. inversion Ecr; subst. destruct Hsplit2 as (Hrl & Hrest). inversion Hrl; subst.
+        cbn [map all_some] in Htbs. inversion Htbs; subst. exists (c :: r). split; [assumption|]. split; [reflexivity|]. split; [exact Hrest|reflexivity]. }
+  destruct Hr as (rest2' & Hv2' & -> & -> & Hcrl). rewrite Hcrl. f_equal.
+  (* signer infos *)
+  inversion Hv2'; subst. cbn [map concat] in E6.
+  pose proof (read_tlv_valid sis [] H1) as Rs.
+  destruct (read_expect_det _ _ _ _ _ _ Rs E6) as [-> ->].
+  apply children_ok in Hsl; [|assumption].
+  apply parse_list_inv in Esi as (ts & Hcat & Hvts & Hf); [|apply valid_body_bytes; assumption].
+  assert (ts = sl).
+  { pose proof (read_all_concat ts Hvts) as R. rewrite <- Hcat in R. rewrite Hsl in R. inversion R. reflexivity. }
+  subst ts. rewrite (si_raw_agree _ _ Hf). reflexivity.
+Qed.
+
+Lemma one_ok x t : all_bytes x = true -> one x = Some t -> x = t_full t /\ valid t /\ read_tlv x = Ok (t, []).
+Proof.
+  unfold one. intros Hb H. destruct (read_all x) as [[|t' [|]]| |] eqn:E; try discriminate. inversion H; subst.
+  apply read_all_cons in E as (Hl & Hv & _ & Hr & _); [|exact Hb]. cbn [map concat] in *. rewrite app_nil_r in Hl. auto.
+Qed.
+
+(* on every input that is a strict DER SignedData in the sense of RFC 5652, the regions the model keeps are the regions the
+   independent walker finds *)
+Theorem model_agrees_with_spec x o r :
+  all_bytes x = true -> parse_cms x = Ok o -> spec_regions x = Some r -> cms_regions o = Some r.
+Proof.
+  intros Hb H Hs. unfold spec_regions in Hs.
+  destruct (one x) as [top|] eqn:Eone; [|discriminate]. apply one_ok in Eone as (Hx & Hvtop & Hrtop); [|exact Hb].
+  destruct (t_tag top =? 48) eqn:Ettop; cbn [negb] in Hs; [|discriminate].
+  destruct (children top) as [[|ct [|wrap [|]]]|] eqn:Ectop; try discriminate.
+  destruct ((t_tag ct =? 6) && (t_tag wrap =? 160)) eqn:Etags; cbn [negb] in Hs; [|discriminate].
+  apply andb_true_iff in Etags as [Etct Etw].
+  destruct (children wrap) as [[|sdt [|]]|] eqn:Ecw; try discriminate.
+  destruct (t_tag sdt =? 48) eqn:Etsd; cbn [negb] in Hs; [|discriminate].
+  destruct (children sdt) as [[|ver [|dal [|eci rest]]]|] eqn:Ecsd; try discriminate.
+  destruct ((t_tag ver =? 2) && (t_tag dal =? 49) && (t_tag eci =? 48)); cbn [negb] in Hs; [|discriminate].
+  destruct (spec_split_optional 160 rest) as [certs rest1] eqn:E160.
+  destruct (spec_split_optional 161 rest1) as [crls rest2] eqn:E161.
+  destruct certs as [cl|]; [|discriminate]. destruct crls as [rl|]; [|discriminate].
+  destruct rest2 as [|sis [|]]; try discriminate.
+  destruct (t_tag sis =? 49); cbn [negb] in Hs; [|discriminate].
+  destruct (children sis) as [sl|] eqn:Ecsis; [|discriminate].
+  destruct (all_some (map spec_tbs rl)) as [tbs|] eqn:Etbs; [|discriminate].
+  destruct (forallb (fun s => t_tag s =? 48) sl); [|discriminate]. inversion Hs; subst r; clear Hs.
+  (* the model's reads *)
+  unfold parse_cms in H. rewrite layout_ok_true in H. cbn [negb] in H.
+  apply bind_ok in H. destruct H as ([t rest0] & E & H). destruct (read_expect_det _ _ _ _ _ _ Hrtop E) as [-> ->].
+  apply bind_ok in H. destruct H as (o' & Eb & H). cbn [fst snd] in Eb, H. rewrite trailing_nil in H. inversion H; subst o'; clear H.
+  apply children_ok in Ectop; [|exact Hvtop].
+  apply read_all_cons in Ectop as (_ & _ & Hv1 & Hr1 & Hall1); [|apply valid_body_bytes; exact Hvtop].
+  inversion Hv1 as [|? ? Hvw _]; subst. cbn [map concat] in Hr1, Hall1. rewrite app_nil_r in Hr1.
+  unfold parse_cms_body in Eb.
+  apply bind_ok in Eb. destruct Eb as ([t1 rest1'] & E1 & Eb). destruct (read_expect_det _ _ _ _ _ _ Hr1 E1) as [-> ->].
+  cbn [fst snd] in Eb. destruct (oid_ok (t_body ct)); cbn [negb] in Eb; [|discriminate].
+  destruct (valid_nonempty wrap Hvw) as (b & rr & Hbr). rewrite Hbr in Eb. rewrite <- Hbr in Eb.
+  pose proof (read_hdr_valid wrap [] Hvw) as Hh. rewrite !app_nil_r in Hh. rewrite Hh in Eb. cbn [bind] in Eb.
+  apply children_ok in Ecw; [|exact Hvw].
+  apply read_all_cons in Ecw as (Hlw & Hvsd & _ & Hrw & _); [|apply valid_body_bytes; exact Hvw].
+  cbn [map concat] in Hlw, Hrw. rewrite app_nil_r in Hlw.
+  destruct (valid_nonempty sdt Hvsd) as (b2 & rr2 & Hbr2).
+  rewrite Hlw in Eb. rewrite Hbr2 in Eb. rewrite <- Hbr2 in Eb.
+  rewrite OCT_explicit_v in Eb. rewrite Etw in Eb. cbn [orb] in Eb.
+  replace (zlen (t_full sdt) >? 0) with true in Eb by (rewrite Hbr2, zlen_cons; pose proof (zlen_nonneg rr2); lia).
+  pose proof (read_hdr_valid sdt [] Hvsd) as Hh2. rewrite !app_nil_r in Hh2. rewrite Hh2 in Eb. cbn [bind] in Eb.
+  change T_SEQ with 48 in Eb. rewrite Etsd in Eb.
+  rewrite Hlw in Hrw. rewrite Hrw in Eb. cbn [bind fst] in Eb.
+  apply bind_ok in Eb. destruct Eb as (sd & Esd & Eb). inversion Eb; subst o; clear Eb.
+  unfold cms_regions. cbn [o_sd option_map]. f_equal.
+  apply children_ok in Ecsd; [|exact Hvsd].
+  apply (sd_spec_agree (t_body sdt) sd ver dal eci rest cl rl sis sl tbs (valid_body_bytes _ Hvsd) Esd Ecsd);
+    [rewrite E160, E161; auto|exact Ecsis|exact Etbs].
+Qed.
